@@ -105,6 +105,9 @@ def run(tier, seed, replay=None):
     rep.rule = ("(a, b = a[theta], bound) with theta non-injective / binding const expressions; bound = image under theta of a "
                 "(bounded type, trait path) over a's parameters ('in-image') or an arbitrary bound; distinct = distinct source "
                 "texts; non-trivial = sigma has a non-identity binding whose value occurs in the bound")
+    from .. import matchfacts
+    mf = matchfacts.generate()     # MatchFacts.lean: the fields the source's is_superset / substitute mention, regenerated on every run
+    rep.extra["match_facts"] = mf
     proof = C.proof_obligations(PROP)
     rep.proof = proof
     rep.broken += proof["failures"]
